@@ -141,6 +141,18 @@ theorem lowest_spec (rows : List Row) (rtol atol : Rat) :
   · rename_i h; simp only [List.isEmpty_iff] at h; subst h; rfl
   · exact maskSelect_map rows _
 
+/-- membership in `lowest`: the band around the least energy `m` has half-width `atol + rtol·|m|` — scaled by the
+    minimum as in `np.isclose(energy, min)`, not by each row's own energy -/
+theorem lowest_band (rows : List Row) (rtol atol : Rat) (r : Row) :
+    r ∈ lowestRows rows rtol atol ↔
+      r ∈ rows ∧ rabs (r.energy - minList (rows.map (·.energy))) ≤ atol + rtol * rabs (minList (rows.map (·.energy))) :=
+  mem_lowestRows rows rtol atol r
+
+/-- a predicate returning numbers selects the rows where the number is non-zero (the mask is coerced to bool) -/
+theorem filter_truthy_spec (rows : List Row) (val : Row → Rat) :
+    filterTruthy rows val = rows.filter (fun r => decide (val r ≠ 0)) :=
+  filterTruthy_spec rows val
+
 /-- the reference energy of `lowest` is the least energy of the record, it is attained, and with
     non-negative tolerances every row attaining it is kept -/
 theorem lowest_contains_min (rows : List Row) (rtol atol : Rat) (hr : 0 ≤ rtol) (ha : 0 ≤ atol) (hne : rows ≠ []) :
